@@ -1776,27 +1776,23 @@ class sptensor:
             shapeArray = np.array(self.shape)
             if not np.array_equal(factor.shape, shapeArray[dims]):
                 assert False, "Size mismatch in scale"
-            return ttb.sptensor(
-                self.subs,
-                self.vals * np.atleast_1d(factor[self.subs[:, dims]])[:, None],
-                self.shape,
-            )
+            vals = self.vals * np.atleast_1d(factor[self.subs[:, dims]])[:, None]
+            nz = np.flatnonzero(vals)
+            return ttb.sptensor(self.subs[nz], vals[nz], self.shape)
         if isinstance(factor, ttb.sptensor):
             shapeArray = np.array(self.shape)
             if not np.array_equal(factor.shape, shapeArray[dims]):
                 assert False, "Size mismatch in scale"
-            return ttb.sptensor(
-                self.subs, self.vals * factor[self.subs[:, dims]], self.shape
-            )
+            vals = self.vals * factor[self.subs[:, dims]]
+            nz = np.flatnonzero(vals)
+            return ttb.sptensor(self.subs[nz], vals[nz], self.shape)
         if isinstance(factor, np.ndarray):
             shapeArray = np.array(self.shape)
             if dims.size != 1 or factor.shape != (shapeArray[dims[0]],):
                 assert False, "Size mismatch in scale"
-            return ttb.sptensor(
-                self.subs,
-                self.vals * factor[self.subs[:, dims].transpose()[0]][:, None],
-                self.shape,
-            )
+            vals = self.vals * factor[self.subs[:, dims].transpose()[0]][:, None]
+            nz = np.flatnonzero(vals)
+            return ttb.sptensor(self.subs[nz], vals[nz], self.shape)
         assert False, "Invalid scaling factor"
 
     def spmatrix(self) -> sparse.coo_matrix:
